@@ -107,9 +107,9 @@ func RunCommitSync(seed int64, idx int) *Result {
 		done := make(chan struct{})
 		go func() {
 			if b == nil {
-				nd.ML.UpdateState(nd.ctx, nil, nil)
+				nd.Sync(nil, nil)
 			} else {
-				nd.ML.UpdateState(nd.ctx, b, nil)
+				nd.Sync(b, nil)
 			}
 			close(done)
 		}()
